@@ -22,7 +22,9 @@ RULE = ("cases = (start position set exactly with G92 or left unknown, "
         "factor, sign), helix/spiral from (radii, angles, turns 1..8, thorough "
         "to 64 and a thin class to 600, dz), thread from (target, pitch), "
         "spline from 2..6 control points (also closed on the start or revisiting an earlier control point), polyline from 1..8 points; targets as "
-        "2- or 3-tuples; optionally issued after another traced path); "
+        "2- or 3-tuples, optionally landing on absolute Z = 0 exactly (any "
+        "shape) or X = Y = 0 exactly (spline/polyline); optionally issued "
+        "after another traced path); "
         "non-trivial = start position not at the origin and >= 8 vertices "
         "(polyline: >= 2 points); distinct by SHA-1")
 ASSUMPTIONS = [
@@ -56,6 +58,15 @@ def shape_strategy(max_turns):
     nz = off.filter(lambda v: abs(v) > 0.5)
     sweep = st.floats(min_value=0.05, max_value=2 * math.pi - 0.05)
     turns = st.integers(1, max_turns)
+    # targets landing on exact zeros (see hist.shape_strategy)
+    land = st.sampled_from([None, None, None, None, None, "z0", "z0", "xy0"])
+    return st.tuples(_shapes(max_turns, ang, rad, dz, off, nz, sweep, turns), land).map(
+        lambda t: dict(t[0], land=t[1]) if t[1] and not t[0].get("closed")
+        and t[0].get("revisit") is None else t[0])
+
+
+def _shapes(max_turns, ang, rad, dz, off, nz, sweep, turns):
+    from hypothesis import strategies as st
     return st.one_of(
         st.fixed_dictionaries({"shape": st.just("arc"), "r": rad, "a0": ang, "sweep": sweep,
                                "dz": dz, "zgiven": st.booleans(), "full": st.sampled_from([False, False, True, "nominal"])}),
